@@ -169,6 +169,19 @@ Theorem c15_system_complete : forall ops y,
 Proof. exact (sys_complete src_consts src_consts_std). Qed.
 Print Assumptions c15_system_complete.
 
+(* "exactly once" includes "at least once": the first completion of stage k (its submission exists and
+   was not yet marked complete), with auto-config command and config file of stage k+1 in order,
+   records k's result value and submits stage k+1 - or marks the pipeline complete if k = n *)
+Theorem c15_system_progress : forall ops y,
+  sys_run src_consts init_sys ops = Some y ->
+  forall k res e s, w_pipe (y_world y) = Some s ->
+  In (EvSubmit k) (w_log (y_world y)) -> ~ In (EvMarkComplete k) (w_log (y_world y)) -> env_ok e = true ->
+  let w2 := complete_world src_consts (y_world y) k res e in
+  exists s2, w_pipe w2 = Some s2 /\ p_stage s2 = k + 1 /\ recorded_rc s2 k = Some res /\
+    ((k < nstages s /\ In (EvSubmit (k + 1)) (w_log w2)) \/ (k = nstages s /\ p_complete s2 = true)).
+Proof. exact (sys_progress src_consts src_consts_std). Qed.
+Print Assumptions c15_system_progress.
+
 (* non-vacuity: a 3-stage pipeline; stage 1 is resubmitted and completes a second time after the
    pipeline moved on (rejected, nothing submitted), stage 2's completion hands over result 1 *)
 Example c15_ex_system :
